@@ -57,6 +57,36 @@ func MTPFaults(prefix string, get func(p *ProofJ, e *Env) **MTPJ, honest *MTPJ, 
 		add("sibling-dropped", "reject", func(m *MTPJ) *MTPJ { m.Siblings = m.Siblings[:n-1]; return m })
 		add("sibling-not-in-field", "reject", func(m *MTPJ) *MTPJ { m.Siblings[0] = Q.String(); return m })
 	}
+	// empty ("0") siblings added to an otherwise valid proof: every level hashes, so the root
+	// changes (a verifier that strips trailing empty siblings would accept)
+	for _, k := range []int{1, 2} {
+		k := k
+		add(fmt.Sprintf("zero-siblings-appended-%d", k), "reject", func(m *MTPJ) *MTPJ {
+			for i := 0; i < k; i++ {
+				m.Siblings = append(m.Siblings, "0")
+			}
+			return m
+		})
+	}
+	for _, to := range []int{40, 64} {
+		to := to
+		add(fmt.Sprintf("zero-siblings-padded-to-%d", to), "reject", func(m *MTPJ) *MTPJ {
+			for len(m.Siblings) < to {
+				m.Siblings = append(m.Siblings, "0")
+			}
+			return m
+		})
+	}
+	add("zero-sibling-prepended", "reject", func(m *MTPJ) *MTPJ { m.Siblings = append([]string{"0"}, m.Siblings...); return m })
+	if n := len(honest.Siblings); n >= 1 {
+		add("zero-sibling-inserted-in-the-middle", "reject", func(m *MTPJ) *MTPJ {
+			at := (n + 1) / 2
+			out := append([]string{}, m.Siblings[:at]...)
+			out = append(out, "0")
+			m.Siblings = append(out, m.Siblings[at:]...)
+			return m
+		})
+	}
 	add("siblings-300-nonzero", "reject", func(m *MTPJ) *MTPJ {
 		// more siblings than the library's bitmap has bits: a decode error since c1afc2d
 		for len(m.Siblings) < 300 {
